@@ -1,5 +1,9 @@
 """C04 - decided by TLC on the end-to-end traces (ObsTrace/Props) and on the
-Pipeline model; see checks/pipe.py for the scenario families."""
+Pipeline model; see checks/pipe.py for the scenario families.  The barrier
+that releases a download's final task (CountCallbackInvoker) has its own
+specification, Invoker.tla (c04_invoker.py)."""
+import json
+
 from checks import pipe
 
 
@@ -7,11 +11,20 @@ def run(tier, seed):
     extra = None
     try:
         from checks import pipeline_mc
-        extra = lambda ck, t, s: pipeline_mc.run(ck, 'C04', t, s)
+        from checks import c04_invoker
+
+        def extra(ck, t, s):
+            pipeline_mc.run(ck, 'C04', t, s)
+            c04_invoker.run(ck, t, s)
     except ImportError:
         pass
     return pipe.run('C04', tier, seed, extra=extra)
 
 
 def replay(path):
+    with open(path) as f:
+        rp = (json.load(f).get('replay') or {})
+    if str(rp.get('kind', '')).startswith('c04-invoker'):
+        from checks import c04_invoker
+        return c04_invoker.replay_file(rp)
     return pipe.replay(path)
